@@ -159,9 +159,13 @@ func (c *mtastsPolicy) Close() error {
 }
 
 func (c *mtastsDelivery) PrepareDomain(ctx context.Context, domain string) {
-	c.policyFut = future.New()
+	// The goroutine should not use c.policyFut, it will be replaced if
+	// PrepareDomain is called for the next recipient domain before the
+	// lookup finishes.
+	policyFut := future.New()
+	c.policyFut = policyFut
 	go func() {
-		c.policyFut.Set(c.c.mtastsGet(ctx, domain))
+		policyFut.Set(c.c.mtastsGet(ctx, domain))
 	}()
 }
 
@@ -474,7 +478,10 @@ func (c *daneDelivery) PrepareConn(ctx context.Context, mx string) {
 		return
 	}
 
-	c.tlsaFut = future.New()
+	// The goroutine should not use c.tlsaFut, it will be replaced if
+	// PrepareConn is called for the next MX before the lookup finishes.
+	tlsaFut := future.New()
+	c.tlsaFut = tlsaFut
 
 	go func() {
 		defer func() {
@@ -484,7 +491,7 @@ func (c *daneDelivery) PrepareConn(ctx context.Context, mx string) {
 			}
 		}()
 
-		c.tlsaFut.Set(c.discoverTLSA(ctx, dns.FQDN(mx)))
+		tlsaFut.Set(c.discoverTLSA(ctx, dns.FQDN(mx)))
 	}()
 }
 
